@@ -80,9 +80,9 @@ def bounded(
         - Only one of ge/gt can be specified at the same time, and same for le/lt.
     """
     # Validate input parameters
-    if ge and gt:
+    if ge is not None and gt is not None:
         raise ValueError("Can only specify at most one of `gt` or `ge`.")
-    if le and lt:
+    if le is not None and lt is not None:
         raise ValueError("Can only specify at most one of `lt` or `le`.")
 
     # Generate name of type
